@@ -276,7 +276,7 @@ pub fn replay_case<P: Property>(value: &serde_json::Value, root: &str, report: &
             0
         }
         Verdict::Known(id) => {
-            let what = known.iter().find(|k| k.id == id).map(|k| k.what.clone()).unwrap_or_default();
+            let what = known.iter().find(|k| k.id == id && k.property == P::ID).map(|k| k.what.clone()).unwrap_or_default();
             report(format!("KNOWN-FINDING: property={} {} [{}]", P::ID, what, id));
             0
         }
@@ -471,7 +471,7 @@ pub fn run_parent<P: Property>(args: &ParentArgs, out: &mut dyn FnMut(String)) -
     // report
     let wall = start.elapsed().as_secs_f64();
     for (id, n) in &merged.known_hits {
-        let what = known.iter().find(|k| &k.id == id).map(|k| k.what.clone()).unwrap_or_default();
+        let what = known.iter().find(|k| &k.id == id && k.property == P::ID).map(|k| k.what.clone()).unwrap_or_default();
         known_lines.insert(format!("KNOWN-FINDING: property={} {} [{}]", P::ID, what, id));
         let _ = n;
     }
